@@ -48,6 +48,9 @@ class SymbolicBranch(Exception):
         self.term, self.node = term, node
 
 
+NUM_ATTRS = {"bit_length", "is_integer", "to_bytes", "conjugate", "real", "imag", "as_integer_ratio", "hex", "numerator", "denominator"}
+
+
 def is_abs(v):
     return isinstance(v, (Res, AObj))
 
@@ -156,7 +159,7 @@ class AbsEval(ConstEval):
                 t = pytype_of(base)
                 if t == "str" and e.attr in ("lower", "upper", "strip", "startswith", "endswith", "split", "isdigit", "casefold"):
                     return ("boundmethod", base, e.attr)
-                if t in ("datetime", "Decimal", "float", "int"):
+                if t in ("datetime", "Decimal") or (t in ("float", "int") and e.attr in NUM_ATTRS):
                     return Res("attr:" + e.attr, base)  # attribute of an opaque library value: stays a term
                 raise AbsRaise("AttributeError", f"{t or 'value'} {base!r} has no attribute {e.attr}")
             if base is None:
@@ -269,7 +272,7 @@ class AbsEval(ConstEval):
                     return Sym(f"{e.func.attr}({base!r})", "str") if False else _typed(Res(e.func.attr, base), "str")
                 if pytype_of(base) == "str" and e.func.attr in ("startswith", "endswith", "isdigit"):
                     raise SymbolicBranch(Res(e.func.attr, base, *args), e)
-                if pytype_of(base) in ("datetime", "Decimal", "float", "int"):
+                if pytype_of(base) in ("datetime", "Decimal") or (pytype_of(base) in ("float", "int") and e.func.attr in NUM_ATTRS):
                     kw = {k.arg: self.eval(k.value, env, mod) for k in e.keywords if k.arg}
                     return Res("method:" + e.func.attr, base, *args, *[Res("kw:" + k, v) for k, v in sorted(kw.items())])
                 raise AbsRaise("AttributeError", f"{base!r}.{e.func.attr}")
